@@ -93,6 +93,13 @@ var exprTexts = []string{
 	"$.list[?(@.v == $.a.b[0])]", "$[*]", "$..a", "$.list[-1].k", "@.a", "$.list[?(@.w[0] == 1 && @.v >= 7)].k", "$.a..[1]",
 }
 
+// paths for Remove through a shared expression: slices whose bounds have to be made fit for the
+// list at hand (negative, beyond the end) - on lists of different lengths, so whatever a call
+// works out for its list must stay that call's own
+var removeTexts = []string{"$.list[-3:-1:1]", "$.list[0:100:2]", "$.list[-2:]", "$.list[1:-1]", "$.list[?(@.v > 1)]", "$.list[0,-1]", "$[-3:-1:1]", "$[0:100:3]"}
+
+var removeExprs []jp.Expr
+
 var (
 	trees  []any
 	exprs  []jp.Expr
@@ -105,6 +112,9 @@ func init() {
 	}
 	for _, e := range exprTexts {
 		exprs = append(exprs, jp.MustParseString(e))
+	}
+	for _, e := range removeTexts {
+		removeExprs = append(removeExprs, jp.MustParseString(e))
 	}
 	optRec = []*ojg.Options{
 		{Sort: true},
@@ -206,7 +216,7 @@ var opKinds = []string{
 	"oj.json", "oj.marshal", "oj.write", "sen.string", "sen.bytes", "pretty.json", "pretty.sen",
 	"struct.oj.json", "struct.oj.marshal", "struct.sen.string", "struct.pretty", "struct.decompose", "named.oj.json", "named.decompose",
 	"alt.generify", "alt.alter", "alt.dup", "alt.recompose", "alt.recompose.cold", "alt.recompose.anon",
-	"jp.get", "jp.first", "jp.has", "jp.set", "jp.del", "jp.modify", "jp.parse", "jp.get.pattern",
+	"jp.get", "jp.first", "jp.has", "jp.set", "jp.del", "jp.modify", "jp.parse", "jp.get.pattern", "jp.remove",
 }
 
 var patternSerial atomic.Int64
@@ -260,6 +270,12 @@ func (e *env) alone(op Op) (string, bool) {
 			v, err = (&sen.Parser{}).Parse([]byte(t))
 		}
 		return fmt.Sprintf("%s %v", canon.String(v, canon.Typed), err), true
+	case "jp.remove":
+		// alone: the expression as it reads, parsed anew (a shared expression is the same value for
+		// every caller, before and after any call)
+		d := canon.Copy(trees[op.D%len(trees)])
+		out, err := jp.MustParseString(removeTexts[op.X%len(removeTexts)]).Remove(d)
+		return fmt.Sprintf("%s %v", canon.String(out, canon.Typed), err != nil), true
 	case "oj.parse.bad":
 		t := badTexts[op.D%len(badTexts)]
 		var v any
@@ -525,6 +541,10 @@ func (e *env) call(op Op) (res string, buf []byte) {
 		d := tree()
 		err := x.Del(d)
 		return fmt.Sprintf("%s %v", canon.String(d, canon.Typed), err != nil), nil
+	case "jp.remove":
+		d := tree()
+		out, err := removeExprs[op.X%len(removeExprs)].Remove(d)
+		return fmt.Sprintf("%s %v", canon.String(out, canon.Typed), err != nil), nil
 	case "jp.modify":
 		d := tree()
 		out, err := x.Modify(d, func(v any) (any, bool) { return "m", true })
@@ -652,7 +672,7 @@ func Run(cs Case, c *vrt.Ctx) {
 		want[i] = make([]string, len(seq))
 		for j, op := range seq {
 			want[i][j], _ = e.do(op)
-			if op.K == "sen.parse" || op.K == "oj.parse" || op.K == "sen.parse.bad" || op.K == "oj.parse.bad" {
+			if op.K == "sen.parse" || op.K == "oj.parse" || op.K == "sen.parse.bad" || op.K == "oj.parse.bad" || op.K == "jp.remove" {
 				// "what it returns when run alone": for the plain parse calls that is what a parser
 				// nobody has used returns (the sequential run takes its parsers from the pools too)
 				res, _ := e.call(op)
